@@ -38,7 +38,7 @@ type vfC13Cfg struct {
 	Allow   []int    `json:"allow"`
 	K       int      `json:"k"`
 	Idem    bool     `json:"idem"`
-	Cancel  bool     `json:"cancel"`
+	Cancel  string   `json:"cancel"` // none | cancel | deadline
 }
 
 type vfC13Ev struct {
@@ -74,6 +74,7 @@ type vfC13Begin struct {
 	Mode    string   `json:"mode"`
 	Stmt    string   `json:"stmt"`
 	Obs     bool     `json:"observer"`
+	Entries string   `json:"entries"`
 }
 
 type vfC13Summary struct {
@@ -122,9 +123,11 @@ type vfC13Run struct {
 	errs  map[error]int
 	curH  map[int]int // aid -> host index
 
-	ctx    context.Context
-	cancel context.CancelFunc
-	wg     sync.WaitGroup
+	ctx          context.Context
+	cancel       func()
+	realTimer    bool // ctx is a context.WithTimeout: its expiry is noted at the first observation
+	cancelLogged bool
+	wg           sync.WaitGroup
 
 	parkCh  chan *vfC13Gate
 	drain   bool
@@ -136,6 +139,7 @@ type vfC13Run struct {
 	retLogged bool   // the return event has been logged (mu)
 	stmt      string // "query" | "batch"
 	observer  bool
+	entries   string // batch: all | none | mixed
 }
 
 func vfC13Gid() int64 {
@@ -183,8 +187,10 @@ func vfC13Class(r *vfC13Run, err error) (class string, aid int) {
 	switch err {
 	case nil:
 		return "ok", 0
-	case context.Canceled, context.DeadlineExceeded:
+	case context.Canceled:
 		return "canceled", 0
+	case context.DeadlineExceeded:
+		return "deadline", 0
 	case ErrNoConnections:
 		return "noconn", 0
 	case ErrUnknownRetryType:
@@ -266,6 +272,83 @@ func (r *vfC13Run) classOfAid(aid int, err error) string {
 	return c
 }
 
+// ---------------------------------------------------------------- contexts
+
+// vfC13Ctx is a caller's context with a deadline that expires when the scheduler says so (replay of
+// the model's "deadline" form of the cancellation action): Err() is context.DeadlineExceeded.  It
+// implements the AfterFunc hook of package context, so the child context executeQuery derives is
+// cancelled synchronously, exactly like the child of a timer context.
+type vfC13Ctx struct {
+	mu   sync.Mutex
+	done chan struct{}
+	err  error
+	fns  map[int]func()
+	next int
+	dl   time.Time
+}
+
+func vfC13NewCtx() *vfC13Ctx {
+	return &vfC13Ctx{done: make(chan struct{}), fns: map[int]func(){}, dl: time.Now().Add(time.Hour)}
+}
+func (c *vfC13Ctx) Deadline() (time.Time, bool)       { return c.dl, true }
+func (c *vfC13Ctx) Done() <-chan struct{}             { return c.done }
+func (c *vfC13Ctx) Value(key interface{}) interface{} { return nil }
+func (c *vfC13Ctx) Err() error {
+	c.mu.Lock()
+	defer c.mu.Unlock()
+	return c.err
+}
+func (c *vfC13Ctx) AfterFunc(f func()) func() bool {
+	c.mu.Lock()
+	defer c.mu.Unlock()
+	if c.err != nil {
+		go f()
+		return func() bool { return false }
+	}
+	id := c.next
+	c.next++
+	c.fns[id] = f
+	return func() bool {
+		c.mu.Lock()
+		defer c.mu.Unlock()
+		_, ok := c.fns[id]
+		delete(c.fns, id)
+		return ok
+	}
+}
+func (c *vfC13Ctx) expire(err error) {
+	c.mu.Lock()
+	if c.err != nil {
+		c.mu.Unlock()
+		return
+	}
+	c.err = err
+	close(c.done)
+	fns := c.fns
+	c.fns = map[int]func(){}
+	c.mu.Unlock()
+	for _, f := range fns {
+		f()
+	}
+}
+
+func vfC13CtxClass(err error) string {
+	if err == context.DeadlineExceeded {
+		return "deadline"
+	}
+	return "canceled"
+}
+
+// noteExpiredLocked: with a REAL timer context (free running) the expiry of the caller's deadline
+// is logged at the first observation of it, before the observing event (mu held): the context
+// did end before, and nothing observes it without passing through a logging point.
+func (r *vfC13Run) noteExpiredLocked() {
+	if r.realTimer && !r.cancelLogged && r.ctx.Err() != nil {
+		r.cancelLogged = true
+		r.log = append(r.log, vfC13Ev{Ev: "cancel", X: "deadline"})
+	}
+}
+
 // ---------------------------------------------------------------- the fake statements
 
 // Both real statement kinds are driven: vfC13Query embeds a real *Query, vfC13Batch a real
@@ -328,6 +411,7 @@ func (r *vfC13Run) doExecute(ctx context.Context, conn *Conn) *Iter {
 	x := "sent"
 	if dead {
 		x = "refused"
+		r.noteExpiredLocked()
 	}
 	r.log = append(r.log, vfC13Ev{Ev: "start", E: e, H: h, N: aid, X: x})
 	var class string
@@ -354,7 +438,7 @@ func (r *vfC13Run) doExecute(ctx context.Context, conn *Conn) *Iter {
 		select {
 		case <-time.After(delay):
 		case <-ctx.Done():
-			class = "canceled"
+			class = vfC13CtxClass(ctx.Err())
 		}
 	} else {
 		class = r.park(e, "end")
@@ -362,7 +446,7 @@ func (r *vfC13Run) doExecute(ctx context.Context, conn *Conn) *Iter {
 			r.mu.Lock()
 			class = r.outcome[aid]
 			r.mu.Unlock()
-			if class == "" || (class == "canceled" && ctx.Err() == nil) {
+			if class == "" || ((class == "canceled" || class == "deadline") && ctx.Err() == nil) {
 				class = "ok"
 			}
 		}
@@ -370,7 +454,7 @@ func (r *vfC13Run) doExecute(ctx context.Context, conn *Conn) *Iter {
 	var err error
 	switch class {
 	case "ok":
-	case "canceled":
+	case "canceled", "deadline":
 		err = ctx.Err()
 		if err == nil {
 			err = context.Canceled
@@ -381,7 +465,7 @@ func (r *vfC13Run) doExecute(ctx context.Context, conn *Conn) *Iter {
 	it := &Iter{err: err}
 	r.mu.Lock()
 	r.iters[it] = aid
-	if err != nil && class != "canceled" {
+	if err != nil && class != "canceled" && class != "deadline" {
 		r.errs[err] = aid
 		r.made[aid] = class
 	}
@@ -398,6 +482,9 @@ func (r *vfC13Run) doAttempt(real func(), iter *Iter, host *HostInfo) {
 	class := "ok"
 	if iter.err != nil {
 		class = r.classOfAid(aid, iter.err)
+		if class == "canceled" || class == "deadline" {
+			r.noteExpiredLocked()
+		}
 	}
 	r.log = append(r.log, vfC13Ev{Ev: "end", E: e, H: r.hostIdx[host], N: aid, X: class})
 	r.mu.Unlock()
@@ -537,7 +624,41 @@ func (c vfC13Cfg) outsFree() []string {
 
 // ---------------------------------------------------------------- set-up
 
-func vfC13NewRun(cfg vfC13Cfg, seed int64, free bool, polName string, roundRobin bool, stmt string, observer bool) (*vfC13Run, *queryExecutor, ExecutableQuery) {
+// how a run's statement and context are made
+type vfC13Opts struct {
+	stmt     string        // "query" | "batch"
+	observer bool          // QueryObserver / BatchObserver installed
+	entries  int           // batch: which per-entry idempotence pattern (see vfC13Entries)
+	timeout  time.Duration // > 0: the caller's context is context.WithTimeout(timeout)
+	scripted bool          // the caller's context is a vfC13Ctx (deadline expires on command)
+}
+
+// per-entry idempotence of a batch: all entries idempotent when the scenario says the statement is
+// idempotent; otherwise none of them, or a MIXED batch (some are, some are not), which is not
+// idempotent either.  The scenario's "idem" is what the harness configured, never IsIdempotent().
+func vfC13Entries(idem bool, pattern int) (es []BatchEntry, name string) {
+	flags := []bool{true, true}
+	name = "all"
+	if !idem {
+		switch pattern % 4 {
+		case 0:
+			flags, name = []bool{false, false}, "none"
+		case 1:
+			flags, name = []bool{true, false}, "mixed"
+		case 2:
+			flags, name = []bool{false, true}, "mixed"
+		case 3:
+			flags, name = []bool{false, true, true}, "mixed"
+		}
+	}
+	for i, f := range flags {
+		es = append(es, BatchEntry{Stmt: fmt.Sprintf("vf-c13-%d", i), Idempotent: f})
+	}
+	return
+}
+
+func vfC13NewRun(cfg vfC13Cfg, seed int64, free bool, polName string, roundRobin bool, o vfC13Opts) (*vfC13Run, *queryExecutor, ExecutableQuery) {
+	stmt, observer := o.stmt, o.observer
 	r := &vfC13Run{cfg: cfg, rng: rand.New(rand.NewSource(seed)), free: free,
 		hostIdx: map[*HostInfo]int{}, kindOf: map[*HostInfo]string{}, gids: map[int64]int{}, natt: map[int]int{},
 		iters: map[*Iter]int{}, errs: map[error]int{}, curH: map[int]int{}, parkCh: make(chan *vfC13Gate, 16),
@@ -580,7 +701,16 @@ func vfC13NewRun(cfg vfC13Cfg, seed int64, free bool, polName string, roundRobin
 	}
 	ex := &queryExecutor{pool: pool, policy: &vfC13Policy{HostSelectionPolicy: inner, run: r}}
 
-	r.ctx, r.cancel = context.WithCancel(context.Background())
+	switch {
+	case o.scripted:
+		c := vfC13NewCtx()
+		r.ctx, r.cancel = c, func() { c.expire(context.DeadlineExceeded) }
+	case o.timeout > 0:
+		r.ctx, r.cancel = context.WithTimeout(context.Background(), o.timeout)
+		r.realTimer = true
+	default:
+		r.ctx, r.cancel = context.WithCancel(context.Background())
+	}
 	var spec SpeculativeExecutionPolicy = &NonSpeculativeExecution{}
 	if cfg.K > 0 {
 		d := time.Duration(2+r.rng.Intn(3)) * time.Millisecond
@@ -595,8 +725,8 @@ func vfC13NewRun(cfg vfC13Cfg, seed int64, free bool, polName string, roundRobin
 	obs := &vfC13Obs{}
 	if stmt == "batch" {
 		b := &Batch{Type: UnloggedBatch, Cons: Quorum, spec: spec, context: r.ctx, keyspace: "vf",
-			metrics: &queryMetrics{m: map[string]*hostMetrics{}}, routingInfo: &queryRoutingInfo{},
-			Entries: []BatchEntry{{Stmt: "vf-c13-a", Idempotent: cfg.Idem}, {Stmt: "vf-c13-b", Idempotent: cfg.Idem}}}
+			metrics: &queryMetrics{m: map[string]*hostMetrics{}}, routingInfo: &queryRoutingInfo{}}
+		b.Entries, r.entries = vfC13Entries(cfg.Idem, o.entries)
 		if observer {
 			b.observer = obs
 		}
@@ -604,7 +734,8 @@ func vfC13NewRun(cfg vfC13Cfg, seed int64, free bool, polName string, roundRobin
 		fq, setRT = fb, func(p RetryPolicy) { fb.vrt = p }
 	} else {
 		q := &Query{stmt: "vf-c13", refCount: 1, metrics: &queryMetrics{m: map[string]*hostMetrics{}},
-			routingInfo: &queryRoutingInfo{}, idempotent: cfg.Idem, context: r.ctx, cons: Quorum, spec: spec}
+			routingInfo: &queryRoutingInfo{}, context: r.ctx, cons: Quorum, spec: spec}
+		q.Idempotent(cfg.Idem)
 		if observer {
 			q.observer = obs
 		}
@@ -646,6 +777,9 @@ func (r *vfC13Run) logReturn(it *Iter) {
 	} else {
 		ev.N = r.iters[it]
 		class, ea := vfC13Class(r, it.err)
+		if class == "canceled" || class == "deadline" {
+			r.noteExpiredLocked()
+		}
 		if ea != 0 {
 			class = r.classOfAid(ea, it.err)
 		}
@@ -674,7 +808,8 @@ var vfC13Hangs int32
 func vfC13Replay(c *vfC13Case, polName string) (sum vfC13Summary, begin vfC13Begin, log []vfC13Ev) {
 	// statement kind and observer vary with the case number, independently of the policy (id % 3)
 	stmt := []string{"query", "batch"}[(c.Id/3)%2]
-	r, ex, fq := vfC13NewRun(c.Cfg, int64(c.Id), false, polName, false, stmt, (c.Id/6)%2 == 1)
+	r, ex, fq := vfC13NewRun(c.Cfg, int64(c.Id), false, polName, false,
+		vfC13Opts{stmt: stmt, observer: (c.Id/6)%2 == 1, entries: c.Id / 12, scripted: c.Cfg.Cancel == "deadline"})
 	sum = vfC13Summary{Id: c.Id, Mode: "replay", Policy: polName}
 	for _, ev := range c.Hist {
 		if ev.Ev == "end" {
@@ -735,6 +870,7 @@ func vfC13Replay(c *vfC13Case, polName string) (sum vfC13Summary, begin vfC13Beg
 		return ""
 	}
 	seen := map[int]bool{}
+	slowDone := false
 	for i := 0; i < len(c.Hist) && sum.Diverged == ""; i++ {
 		ev := c.Hist[i]
 		switch ev.Ev {
@@ -773,6 +909,13 @@ func vfC13Replay(c *vfC13Case, polName string) (sum vfC13Summary, begin vfC13Beg
 			arg := "go"
 			if ev.Ev == "end" {
 				arg = ev.X
+				if !c.Cfg.Idem && c.Cfg.K > 0 && !slowDone {
+					// a statement that is not idempotent carries a speculative policy: keep its first
+					// attempt in flight longer than the policy's delay, so that a speculative
+					// execution - which must not exist - would show up
+					slowDone = true
+					await(func() bool { return false }, 7*time.Millisecond)
+				}
 			}
 			g.resume <- arg
 			// settle: the execution parks at its next gate, or runs to its end
@@ -815,15 +958,8 @@ func vfC13Replay(c *vfC13Case, polName string) (sum vfC13Summary, begin vfC13Beg
 			}
 		case "cancel":
 			r.mu.Lock()
-			if r.retLogged {
-				// executeQuery already returned (an unexpected early result): a cancellation
-				// now would be logged after the fact and mean nothing
-				r.mu.Unlock()
-				diverge(i, "executeQuery returned before the model's cancellation")
-				break
-			}
-			r.log = append(r.log, vfC13Ev{Ev: "cancel"})
-			r.cancel()
+			r.log = append(r.log, vfC13Ev{Ev: "cancel", X: ev.X})
+			r.cancel() // cancels, or lets the scripted deadline expire
 			r.mu.Unlock()
 			// in speculative mode executeQuery itself reacts to the cancellation
 			if i+1 < len(c.Hist) && c.Hist[i+1].Ev == "return" {
@@ -885,7 +1021,7 @@ func vfC13SameHist(a, b []vfC13Ev) bool {
 
 func (r *vfC13Run) begin(id int, mode string) vfC13Begin {
 	b := vfC13Begin{Ev: "begin", Id: id, Hosts: append([]string{}, r.offered...), Polkind: r.cfg.Polkind, Poln: r.cfg.Poln,
-		Allow: append([]int{}, r.cfg.Allow...), K: r.cfg.K, Idem: r.cfg.Idem, Policy: r.polName, Mode: mode, Stmt: r.stmt, Obs: r.observer}
+		Allow: append([]int{}, r.cfg.Allow...), K: r.cfg.K, Idem: r.cfg.Idem, Policy: r.polName, Mode: mode, Stmt: r.stmt, Obs: r.observer, Entries: r.entries}
 	return b
 }
 
@@ -920,13 +1056,19 @@ func vfC13Free(id int, seed int64) (sum vfC13Summary, begin vfC13Begin, log []vf
 	}
 	roundRobin := rng.Intn(2) == 0
 	stmt := []string{"query", "batch"}[rng.Intn(2)]
-	r, ex, fq := vfC13NewRun(cfg, seed, true, polName, roundRobin, stmt, rng.Intn(2) == 0)
+	opts := vfC13Opts{stmt: stmt, observer: rng.Intn(2) == 0, entries: rng.Intn(4)}
+	// the caller's context: never ends / is cancelled by the caller / has a (real) deadline
+	ctxForm := []string{"none", "none", "none", "none", "none", "cancel", "deadline", "deadline"}[rng.Intn(8)]
+	if ctxForm == "deadline" {
+		opts.timeout = time.Duration(1 + rng.Int63n(int64(600*time.Microsecond)))
+	}
+	r, ex, fq := vfC13NewRun(cfg, seed, true, polName, roundRobin, opts)
 	sum = vfC13Summary{Id: id, Mode: "free", Policy: polName}
 	if rng.Intn(4) == 0 {
 		r.maxDelay = 5 * time.Microsecond
 	}
 	cancelAfter := time.Duration(-1)
-	if rng.Intn(4) == 0 {
+	if ctxForm == "cancel" {
 		cancelAfter = time.Duration(rng.Int63n(int64(600 * time.Microsecond)))
 	}
 	done := make(chan struct{})
@@ -947,10 +1089,8 @@ func vfC13Free(id int, seed int64) (sum vfC13Summary, begin vfC13Begin, log []vf
 			select {
 			case <-time.After(cancelAfter):
 				r.mu.Lock()
-				if !r.retLogged { // else too late to matter: no cancellation is logged after the return
-					r.log = append(r.log, vfC13Ev{Ev: "cancel"})
-					r.cancel()
-				}
+				r.log = append(r.log, vfC13Ev{Ev: "cancel", X: "cancel"})
+				r.cancel()
 				r.mu.Unlock()
 			case <-done:
 			}
